@@ -72,6 +72,25 @@ def corpus_pool(ctx, compiled=True, reference=True, limit=None):
     return out
 
 
+def probe_pool(ctx, sub):
+    """Hand-written probe stories under corpus/<sub>/ (with an optional <name>.meta.json sidecar naming
+    functions / externals / flows the oracles need)."""
+    import glob
+    out = []
+    for ink in sorted(glob.glob(os.path.join(common.ROOT, "corpus", sub, "*.ink"))):
+        dst = ctx.path(f"probe_{sub}_" + os.path.basename(ink) + ".json")
+        st, detail = common.compile_ink(ctx, ink, dst)
+        if st != "ok":
+            ctx.corr_diff("probe story does not compile", {"file": ink, "detail": str(detail)[:300]})
+            continue
+        m = story_meta_from_json(dst)
+        side = ink[:-4] + ".meta.json"
+        if os.path.exists(side):
+            m.update(json.load(open(side)))
+        out.append({"path": dst, "origin": "probe", "ink": ink, "seed": None, "meta": m, "probe": True})
+    return out
+
+
 def generated_pool(ctx, profile, n, size=3, base=0):
     """n generated programs of a profile that compile; returns story dicts (with the ink source)."""
     from gen import inkgen
